@@ -556,3 +556,88 @@ def paux_rules(chk, m, rid):
                'processing src/doc.tex (job name doc) in /w with paux-dirs [/x] and the files %s restores %s; expected %s - the own '
                'doc.paux written by the previous run must not be loaded (forward references would bind to its stale stand-ins), and no '
                'other document\'s file may be skipped' % (listing, sorted(got, key=repr), want), chk.where(fn))
+
+
+# ---------------------------------------------------------------------------
+# A context built by its own constructor, and sequences of calls on it
+def new_context(m):
+    """Context(load=False) interpreted on the heap: the object with its global frame and the default category table."""
+    from . import domheap as D
+    Context = m.cls('plasTeX.Context', 'Context')
+    fn = m.find_method(Context, '__init__')
+    need(fn is not None, 'Context.__init__ not found')
+    it = A.Interp(model=m, scope=fn, hooks=D.DomHooks(m, Context), max_iter=20, exc_edges=False, inline=8, heap=True, precise_exc=True)
+    it.run_init = True
+    st = A.State({})
+    v = it.ev(ast.parse('Context(load=False)', mode='eval').body, st)
+    if not isinstance(v, A.Obj) or it.imprecise or it.unknown_branches or st.env.get('__exc'):
+        raise AnalysisError('Context() could not be built on the heap: %s' % ((it.imprecise + it.unknown_branches)[:2] or st.env.get('__exc') or v))
+    return v
+
+
+def call_seq(m, obj, steps, inline=8):
+    """Interpret obj.method(*args) for each (method, args) in turn on the evolving heap object.
+    Returns (list of results, final object) or raises D.Imprecise."""
+    from . import domheap as D
+    import copy
+    obj = copy.deepcopy(obj)
+    results = []
+    for meth, args in steps:
+        fn = m.find_method(obj.cls, meth)
+        need(fn is not None, '%s.%s not found' % (obj.cls.fullname, meth))
+        it = A.Interp(model=m, scope=fn, hooks=D.DomHooks(m, obj.cls), max_iter=40, exc_edges=False, inline=inline, heap=True, precise_exc=True)
+        params = [a.arg for a in fn.node.args.args[1:]]
+        env = {'self': obj, '__obj': obj}
+        for p_, a_ in zip(params, args):
+            env[p_] = a_
+        for p_, dflt in zip(params[len(params) - len(fn.node.args.defaults):], fn.node.args.defaults):
+            if p_ not in env:
+                env[p_] = it.ev(dflt, A.State({}))
+        outs = it.run_function(fn, env=env)
+        if it.imprecise or it.unknown_branches:
+            raise D.Imprecise('%s: %s' % (meth, '; '.join((it.imprecise + it.unknown_branches)[:2])))
+        if len(outs) != 1:
+            raise D.Imprecise('%s has %d outcomes' % (meth, len(outs)))
+        kind, st, v = outs[0]
+        if kind != 'return':
+            results.append('raises %s' % (v,))
+            return results, obj
+        results.append(v)
+        obj = st.env['__obj']
+    return results, obj
+
+
+def category_sequence_rules(chk, m, rid):
+    from . import domheap as D
+    R = chk.rule(rid, 'the category of a character is the one of the table in force *now* (a Context built by its own constructor, then '
+                 'sequences of calls interpreted on it): asking, changing the codes (catcode, a group, verbatim codes) and asking '
+                 'again gives the new answer, and closing the group gives the old one back', 5)
+    Context = m.cls('plasTeX.Context', 'Context')
+    for f in ('whichCode', 'catcode', 'setVerbatimCatcodes', 'push', 'pop'):
+        chk.analysed(m.find_method(Context, f))
+    try:
+        ctx = new_context(m)
+    except AnalysisError as e:
+        chk.undecided(R, 'a context built by its constructor', str(e), chk.where(Context))
+        return
+    W = lambda c: ('whichCode', [c])
+    cases = [('the default table', [W(' '), W('\\'), W('!'), W('%'), W('{')], [10, 0, 12, 14, 1]),
+             ('asked, then made active, then asked again', [W('!'), ('catcode', ['!', 13]), W('!'), ('catcode', ['!', 12]), W('!'), ('catcode', ['!', 0]), W('!')],
+              [12, None, 13, None, 12, None, 0]),
+             ('asked, then verbatim codes, then asked again', [W(' '), W('\\'), W('%'), ('setVerbatimCatcodes', []), W(' '), W('\\'), W('%')],
+              [10, 0, 14, None, 12, 12, 12]),
+             ('a change inside a group ends with the group', [W('~'), ('push', []), ('catcode', ['~', 12]), W('~'), ('pop', []), W('~')], [13, None, None, 12, None, 13]),
+             ('verbatim codes inside a group end with the group', [W(' '), ('push', []), ('setVerbatimCatcodes', []), W(' '), ('pop', []), W(' ')],
+              [10, None, None, 12, None, 10])]
+    for label, steps, want in cases:
+        try:
+            res, _ = call_seq(m, ctx, steps)
+        except D.Imprecise as e:
+            chk.undecided(R, label, str(e), chk.where(Context))
+            continue
+        got = [r if (isinstance(r, (int, str)) and not isinstance(r, bool)) else None for r in res]
+        ask = [i for i, (mth, _a) in enumerate(steps) if mth == 'whichCode']
+        g2 = [got[i] if i < len(got) else 'missing' for i in ask]
+        w2 = [want[i] for i in ask]
+        chk.decide(R, label, {repr(g2)}, {repr(w2)}, '%s: the answers of whichCode along %s are %s, expected %s'
+                   % (label, [('%s(%s)' % (mth, ', '.join(map(repr, a)))) for mth, a in steps], g2, w2), chk.where(m.find_method(Context, 'whichCode')))
